@@ -777,7 +777,7 @@ type histEvaluator struct {
 	shared ai.EvaluationFunc
 	mm     *ai.MinimaxAI
 	cs     bitboard.Constants
-	emit   int // CASE lines still to print for this instance
+	emit   int      // CASE lines still to print for this instance
 	prev   []string // the positions this instance evaluated before (the last few), for the replay file
 }
 
@@ -843,10 +843,10 @@ func sameTopsVariants(r *rand.Rand, b evBoard, move int) []*tak.Position {
 	}
 	spare := func() int { return 1 + r.Intn(30) }
 	out = append(out, set(mk(b, move), spare(), r.Intn(2), spare(), r.Intn(2))) // both have pieces
-	out = append(out, set(mk(b, move), 0, 0, spare(), r.Intn(2)))                // White out of pieces: over
-	out = append(out, set(mk(b, move), spare(), r.Intn(2), 0, 0))                // Black out of pieces: over
-	out = append(out, set(mk(b, move), 0, 1, spare(), 0))                        // no flats but a capstone: not over
-	out = append(out, set(mk(b, move+1), spare(), 1, spare(), 1))                // other side to move
+	out = append(out, set(mk(b, move), 0, 0, spare(), r.Intn(2)))               // White out of pieces: over
+	out = append(out, set(mk(b, move), spare(), r.Intn(2), 0, 0))               // Black out of pieces: over
+	out = append(out, set(mk(b, move), 0, 1, spare(), 0))                       // no flats but a capstone: not over
+	out = append(out, set(mk(b, move+1), spare(), 1, spare(), 1))               // other side to move
 	out = append(out, set(mk(b, move+1), 0, 0, 0, 0))
 	// other buried stones under the same tops
 	b2 := b.clone()
@@ -953,6 +953,29 @@ func analyzeCorollary(c *ctx, p *tak.Position, depth int, table int64) {
 	m := ai.NewMinimax(ai.MinimaxConfig{Size: p.Size(), Depth: depth, Seed: 1, TableMem: table})
 	pv, v, _ := m.Analyze(context.Background(), p)
 	c.stat("history_analyze", 1)
+	// the engine's own static evaluation AFTER it has searched the position (and the positions of the reported line): still a
+	// function of the position alone, whatever the search has stored about it
+	{
+		cs := bitboard.Precompute(uint(p.Size()))
+		q := p
+		for k := 0; k <= len(pv) && k <= 2; k++ {
+			got := m.Evaluate(q)
+			fresh := ai.MakeEvaluator(p.Size(), nil)(&cs, q)
+			c.stat("history_static_after_search", 1)
+			if got != fresh {
+				c.printf("ORACLE-FAIL evaluator-history-dependent | %s ; D ; history analyze depth %d table %d of %s | MinimaxAI.Evaluate after the search: %d, fresh evaluator: %d | the evaluation is a function of the position\n",
+					enc(q), depth, table, enc(p), got, fresh)
+				break
+			}
+			if k < len(pv) {
+				n, err := q.Move(pv[k])
+				if err != nil {
+					break
+				}
+				q = n
+			}
+		}
+	}
 	q := p
 	finished := false
 	var win tak.Color
